@@ -3,6 +3,10 @@ import Rare.Props.C01
 import Rare.Model.C06Shape
 import Rare.Gen.C06
 import Rare.Gen.Skeleton
+import Rare.Model.C06Tree
+import Rare.Proofs.C06Match
+import Rare.Proofs.C06GlobP
+import Rare.Proofs.C06Walk
 /-!
 # C06 — named inputs are each read once, decoded faithfully, and failures are reported
 
@@ -373,5 +377,384 @@ example : ∃ s, Reach (fun _ : Line => Cls.matched) 2 1 5
     (by decide) (by decide) (by decide) 2 2 [Outcome.readErr (ascii "x\ny"), .ok (ascii "a\nb\nc\n"), .openErr]
     (fun _ _ => false)
   exact ⟨s, hr, hd, others_unaffected _ 2 1 5 2 2 (by decide) _ _ hr hd 1 _ rfl⟩
+
+/-! # Glob matching and directory walking inside the model
+
+From here on the file system is no oracle any more: it is an abstract directory tree (`Glob.Node`:
+files, symbolic links, directories), path look-up follows path_resolution(7), and Go's
+`filepath.Match`, `Glob`, `Walk`, `Clean`, `Join` are Lean functions mirrored from go1.23
+(`Rare/Model/C06Glob.lean`); `treeFs root` is the `FsOracle` they compute. -/
+
+open Rare.C06.Glob Rare.C06.Spec
+
+/-! ## `filepath.Match` -/
+
+/-- The algorithmic matcher (chunks, backtracking over `*`) decides exactly the declarative relation, for
+    every well-formed pattern and every name without `/` (what a directory entry is) in which no character
+    is wider than two bytes — or every name without `/` at all when the pattern consists of literal bytes
+    and `*` only (`*.log`).  It never reports an error for a well-formed pattern.
+    (Both side conditions are needed for Go's matcher: `match_greedy_needs_side_conditions`.) -/
+theorem match_eq_spec (pat name : Bytes) (ast : Pat) (hp : Parses pat ast) (hs : slash ∉ name)
+    (hg : NoWide name ∨ FixedWidth ast) :
+    (goMatch pat name = .matched true ↔ Matches ast name) ∧ (∃ b, goMatch pat name = .matched b) := by
+  refine ⟨⟨?_, ?_⟩, goMatch_total pat name ast hp⟩
+  · intro h
+    obtain ⟨ast', hp', hm⟩ := goMatch_sound pat name h
+    rw [parses_unique hp hp']; exact hm
+  · intro hm
+    exact goMatch_complete pat name ast hp hm hs hg
+
+/-- Soundness needs no side condition: whenever `Match` says yes — for ANY pattern text and ANY name, `/`
+    and invalid UTF-8 included — the pattern is well formed and the declarative relation holds. -/
+theorem match_sound (pat name : Bytes) (h : goMatch pat name = .matched true) :
+    ∃ ast, Parses pat ast ∧ Matches ast name :=
+  goMatch_sound pat name h
+
+/-- Bad patterns.  `ErrBadPattern` is only ever reported for a pattern the grammar rejects; a pattern the
+    grammar rejects never matches anything; the fuel of the model is never exhausted; and the grammar
+    assigns at most one syntax tree.  (The converse "every rejected pattern gives `ErrBadPattern`" is false for
+    `filepath.Match`, see `match_error_depends_on_name`.) -/
+theorem match_bad_pattern (pat name : Bytes) :
+    (goMatch pat name = .badPattern → ¬ WellFormed pat) ∧
+    (¬ WellFormed pat → goMatch pat name = .badPattern ∨ goMatch pat name = .matched false) ∧
+    goMatch pat name ≠ .outOfFuel ∧
+    (∀ a b, Parses pat a → Parses pat b → a = b) := by
+  refine ⟨?_, ?_, goMatch_fuel pat name, fun a b ha hb => parses_unique ha hb⟩
+  · intro h ⟨ast, hp⟩
+    obtain ⟨b, hb⟩ := goMatch_total pat name ast hp
+    rw [hb] at h; cases h
+  · intro hwf
+    cases h : goMatch pat name with
+    | badPattern => exact Or.inl rfl
+    | outOfFuel => exact absurd h (goMatch_fuel pat name)
+    | matched b =>
+      cases b with
+      | false => exact Or.inr rfl
+      | true =>
+        obtain ⟨ast, hp, _⟩ := goMatch_sound pat name h
+        exact absurd ⟨ast, hp⟩ hwf
+
+/-- go1.23 `filepath.Match` (unlike `path.Match`) does not look at the part of the pattern it never
+    reaches: the malformed `a*[` is an error against `ab` and a plain "no match" against `b`.  (So is
+    `filepath.Glob`'s verdict: it depends on the directory contents; rare reads the argument as a literal
+    path in both cases, `plan_literal_fallback`.) -/
+theorem match_error_depends_on_name :
+    ¬ WellFormed [97, 42, 91] ∧ goMatch [97, 42, 91] [97, 98] = .badPattern ∧
+    goMatch [97, 42, 91] [98] = .matched false := by
+  refine ⟨?_, by decide, by decide⟩
+  intro hwf
+  have := (match_bad_pattern [97, 42, 91] [97, 98]).1 (by decide)
+  exact this hwf
+
+/-- The side conditions of `match_eq_spec` cannot be dropped, because of how Go's matcher works:
+    `*` skips BYTES while `?` and classes read characters, and the matcher never returns to an earlier `*`.
+    * `*?*[�][�]` does not match `😀` (F0 9F 98 80) although `*`=F0, `?`=9F (a stray byte, U+FFFD),
+      `*`=ε, 98 and 80 (two more stray bytes) is a match by the rules;
+    * `*[/a]*b` does not match `a/b` although `*`=`a`, `[/a]`=`/`, `*`=ε, `b` is one. -/
+theorem match_greedy_needs_side_conditions :
+    (goMatch [42, 63, 42, 91, 239, 191, 189, 93, 91, 239, 191, 189, 93] [240, 159, 152, 128] = .matched false ∧
+      Matches [.star, .any, .star, .cls false [(65533, 65533)], .cls false [(65533, 65533)]] [240, 159, 152, 128] ∧
+      Parses [42, 63, 42, 91, 239, 191, 189, 93, 91, 239, 191, 189, 93]
+        [.star, .any, .star, .cls false [(65533, 65533)], .cls false [(65533, 65533)]]) ∧
+    (goMatch [42, 91, 47, 97, 93, 42, 98] [97, 47, 98] = .matched false ∧
+      Matches [.star, .cls false [(47, 47), (97, 97)], .star, .lit 98] [97, 47, 98] ∧
+      Parses [42, 91, 47, 97, 93, 42, 98] [.star, .cls false [(47, 47), (97, 97)], .star, .lit 98]) := by
+  refine ⟨⟨by decide, ?_, ?_⟩, ⟨by decide, ?_, ?_⟩⟩
+  · refine ⟨[240], [159, 152, 128], rfl, by decide, ?_⟩
+    refine ⟨by decide, by decide, ?_⟩
+    show Matches _ [152, 128]
+    refine ⟨[], [152, 128], rfl, by simp, ?_⟩
+    refine ⟨by decide, by decide, ?_⟩
+    show Matches _ [128]
+    exact ⟨by decide, by decide, rfl⟩
+  · have h := scan_parses 20 [63] [42, 91, 239, 191, 189, 93, 91, 239, 191, 189, 93] [.any] _ (by decide) (by decide)
+      (Parses.star (scan_parses 20 [91, 239, 191, 189, 93, 91, 239, 191, 189, 93] []
+        [.cls false [(65533, 65533)], .cls false [(65533, 65533)]] [] (by decide) (by decide) Parses.nil).1)
+    exact Parses.star h.1
+  · refine ⟨[97], [47, 98], rfl, by decide, ?_⟩
+    refine ⟨by decide, by decide, ?_⟩
+    show Matches _ [98]
+    exact ⟨[], [98], rfl, by simp, ⟨[], rfl, rfl⟩⟩
+  · have h := scan_parses 20 [91, 47, 97, 93] [42, 98] [.cls false [(47, 47), (97, 97)]] _ (by decide) (by decide)
+      (Parses.star (Parses.lit 98 (by decide) (by decide) (by decide) (by decide) Parses.nil))
+    exact Parses.star h.1
+
+/-- A pattern without metacharacters matches exactly that name (any bytes, `/` and invalid UTF-8 included). -/
+theorem literal_matches_itself (pat name : Bytes) (h : hasMeta pat = false) :
+    goMatch pat name = .matched (decide (name = pat)) ∧ Parses pat (pat.map Item.lit) ∧
+    (Matches (pat.map Item.lit) name ↔ name = pat) := by
+  refine ⟨goMatch_noMeta pat name h, noMeta_parses pat h, ?_⟩
+  constructor
+  · intro hm
+    have := matchItems_complete (pat.map Item.lit) (by
+      intro it hit; simp only [List.mem_map] at hit; obtain ⟨b, _, rfl⟩ := hit; simp) name [] (by simpa using hm)
+    obtain ⟨t, ht, htm⟩ := this
+    have ht0 : t = [] := htm
+    subst ht0
+    simpa using (matchItems_lits pat name []).1 ht
+  · intro e
+    have := matchItems_sound (pat.map Item.lit) name [] ((matchItems_lits pat name []).2 (by simp [e])) [] rfl
+    simpa using this
+
+/-- `*` does not cross `/`: a lone `*` matches exactly the names without `/`, and in general a pattern none
+    of whose items admits `/` (no literal `/`, no class containing it – `*` and `?` never do) matches no
+    name that contains one; this holds for the algorithm on ALL names. -/
+theorem star_no_slash (name : Bytes) :
+    goMatch [42] name = .matched (decide (slash ∉ name)) ∧
+    (∀ pat ast, Parses pat ast → (∀ it ∈ ast, it.admitsSlash = false) →
+      goMatch pat name = .matched true → slash ∉ name) := by
+  constructor
+  · have : (47 : UInt8) ∈ name ↔ slash ∈ name := Iff.rfl
+    by_cases h : slash ∈ name
+    · have h' : (47 : UInt8) ∈ name := h
+      simp [goMatch, goMatchF, scanChunk, scanLen, h, h']
+    · have h' : ¬ (47 : UInt8) ∈ name := h
+      simp [goMatch, goMatchF, scanChunk, scanLen, h, h']
+  · intro pat ast hp hns hm
+    obtain ⟨ast', hp', hm'⟩ := goMatch_sound pat name hm
+    rw [← parses_unique hp hp'] at hm'
+    exact matches_no_slash ast name hm' hns
+
+/-! ## `filepath.Glob` over a tree -/
+
+/-- **Glob returns exactly the matching paths, each once, in lexical order.**  The pattern is
+    `lits/…/c₁/…/c_k`: a (possibly empty) literal directory prefix of proper names followed by pattern
+    components of which the first has a metacharacter; every component is a well-formed pattern.  Over a
+    well-formed tree `filepath.Glob` then succeeds, and its answer
+    * contains `p` iff `p` is `start/n₁/…/n_k` with each `n_i` an entry of the directory `start/n₁/…/n_{i-1}`
+      (symbolic links to directories are followed, as `os.Stat` does) that matches `c_i` by the declarative
+      semantics (`GlobRel`);
+    * is strictly increasing in the lexical order of paths (component by component, bytewise), hence
+    * lists every path exactly once — the "read exactly once per mention" clause for glob expansions.
+    Side condition inherited from `Match`: the components use only literals and `*`, or no entry name of the
+    tree has a character wider than two bytes. -/
+theorem glob_sound_complete (root : Node) (hw : root.WF) (lits : List Name) (c1 : Bytes) (more : List Bytes)
+    (hl : ∀ x ∈ lits, NormalName x ∧ hasMeta x = false) (hc1 : hasMeta c1 = true)
+    (hcs : ∀ c ∈ c1 :: more, c ≠ [] ∧ slash ∉ c ∧ WellFormed c)
+    (hlen : (c1 :: more).length < pathSeparatorsLimit)
+    (hgreedy : (∀ c ∈ c1 :: more, ∀ ast, Parses c ast → FixedWidth ast) ∨
+      (∀ d names n, readDirNames root d = some names → n ∈ names → NoWide n)) :
+    ∃ l, glob root (intercalateSlash (lits ++ c1 :: more)) = .ok l ∧
+      (∀ p, p ∈ l ↔ GlobRel (treeView root) (if lits = [] then dot else intercalateSlash lits) (c1 :: more).reverse p) ∧
+      l.Pairwise pathLt ∧ l.Nodup ∧ ∀ p, l.count p ≤ 1 := by
+  have hrev : ((c1 :: more).reverse).reverse = c1 :: more := List.reverse_reverse _
+  obtain ⟨L, hL, hmem, _, hord⟩ := globF_spec root hw lits hl (c1 :: more).reverse (by simp)
+    (fun c hc => hcs c (List.mem_reverse.1 hc))
+    (by
+      intro c hc ast hp d names n hr hn
+      have hnn := (readDirNames_wf root hw d names hr).1 n hn
+      have hg : NoWide n ∨ FixedWidth ast := by
+        rcases hgreedy with h | h
+        · exact Or.inr (h c (List.mem_reverse.1 hc) ast hp)
+        · exact Or.inl (h d names n hr hn)
+      exact (match_eq_spec c n ast hp hnn.2.1 hg).1)
+    (by
+      intro c hc
+      rw [List.getLast?_reverse] at hc
+      simp only [List.head?_cons, Option.some.injEq] at hc
+      subst hc; exact hc1)
+    pathSeparatorsLimit (by simpa using hlen)
+  rw [hrev] at hL
+  have hnd : L.Nodup := by
+    apply List.Pairwise.imp _ hord
+    intro a b hab e
+    subst e
+    exact compsLt_irrefl _ hab
+  exact ⟨L, hL, hmem, hord, hnd, fun p => List.nodup_iff_count.1 hnd p⟩
+
+/-- A pattern without metacharacters is looked up with `Lstat`: it expands to itself if anything (a file, a
+    directory, a symbolic link – dangling or not) has that name, and to nothing otherwise; in both cases rare
+    opens exactly that path once (`plan_literal_fallback` for the second). -/
+theorem glob_literal (root : Node) (p : Bytes) (h : hasMeta p = false) :
+    glob root p = .ok (if (lstat root p).isSome then [p] else []) ∧
+    expandArg (treeFs root) false p = [p] := by
+  have hg : glob root p = .ok (if (lstat root p).isSome then [p] else []) := by
+    unfold glob globF pathSeparatorsLimit
+    obtain ⟨b, hb⟩ := goMatch_total p [] _ (noMeta_parses p h)
+    simp only [hb, h, Bool.not_false, if_true]
+    split <;> rfl
+  refine ⟨hg, ?_⟩
+  simp only [expandArg, Bool.false_and, Bool.false_eq_true, if_false, treeFs, globRes, hg]
+  split <;> simp
+
+/-! ## The recursive walk -/
+
+/-- **With `-R` every regular file below a directory argument appears exactly once in the plan.**
+    `p` is a directory argument made of proper names (`logs`, `a/b`; symbolic links on the way and `p` itself
+    being a link to a directory are followed – the fixed `walkRoot`), `isDir(p)` holds.  Then what rare plans
+    for this argument is the list of `p/rel`, where `rel` ranges over the relative paths that lead from the
+    directory through REAL directories to a non-directory (`Below`): every such path occurs exactly once, nothing
+    else occurs, and the list has no duplicates.  As the code has it, a symbolic link inside the tree is such
+    a leaf whatever it points to (it is sent as a file and not descended into). -/
+theorem walk_each_regular_file_once (root : Node) (hw : root.WF) (ds : List Name) (hne : ds ≠ [])
+    (hds : ∀ x ∈ ds, NormalName x) (hdir : Glob.isDir root (intercalateSlash ds) = true) :
+    ∃ e, stat root (intercalateSlash ds) = some (.dir e) ∧
+      expandArg (treeFs root) true (intercalateSlash ds) = Glob.walk root (walkRoot (intercalateSlash ds)) ∧
+      (∀ rel leaf, Below (.dir e) rel leaf →
+        (Glob.walk root (walkRoot (intercalateSlash ds))).count (intercalateSlash (ds ++ rel)) = 1) ∧
+      (∀ q ∈ Glob.walk root (walkRoot (intercalateSlash ds)), ∃ rel leaf, Below (.dir e) rel leaf ∧
+        q = intercalateSlash (ds ++ rel)) ∧
+      (Glob.walk root (walkRoot (intercalateSlash ds))).Nodup := by
+  unfold Glob.isDir at hdir
+  cases hs : stat root (intercalateSlash ds) with
+  | none => simp [hs] at hdir
+  | some node =>
+    cases node with
+    | file => simp [hs] at hdir
+    | link t => simp [hs] at hdir
+    | dir e =>
+      have hwalk := walk_simple root hw ds hne hds e hs
+      have hwe : Node.WF (.dir e) := stat_wf root hw _ _ hs
+      have hsz : (Node.dir e).size ≤ root.size + 2 := by
+        obtain ⟨_, _, _, st, _, hat⟩ := walkRoot_dir root ds hne hds e hs
+        have := Node.at_size _ root _ hat; omega
+      have hiff := relFiles_iff (root.size + 2) (.dir e) hsz
+      have hnd := relFiles_nodup (root.size + 2) (.dir e) hwe
+      -- `rel ↦ p/rel` is injective on lists of proper names
+      have hinj : ∀ r1 ∈ relFiles (root.size + 2) (.dir e), ∀ r2 ∈ relFiles (root.size + 2) (.dir e),
+          intercalateSlash (ds ++ r1) = intercalateSlash (ds ++ r2) → r1 = r2 := by
+        intro r1 h1 r2 h2 heq
+        obtain ⟨l1, hb1⟩ := (hiff r1).1 h1
+        obtain ⟨l2, hb2⟩ := (hiff r2).1 h2
+        have hs1 := splitSlash_intercalate (ds ++ r1) (by simp [hne]) (by
+          intro x hx
+          rcases List.mem_append.1 hx with h | h
+          · exact (hds x h).2.1
+          · exact (hb1.normal hwe x h).2.1)
+        have hs2 := splitSlash_intercalate (ds ++ r2) (by simp [hne]) (by
+          intro x hx
+          rcases List.mem_append.1 hx with h | h
+          · exact (hds x h).2.1
+          · exact (hb2.normal hwe x h).2.1)
+        rw [heq, hs2] at hs1
+        exact (List.append_cancel_left hs1).symm
+      have hndw : (Glob.walk root (walkRoot (intercalateSlash ds))).Nodup := by
+        rw [hwalk, List.Nodup, List.pairwise_map]
+        apply List.Pairwise.imp_of_mem _ hnd
+        intro a b ha hb hab e
+        exact hab (hinj a ha b hb e)
+      refine ⟨e, rfl, ?_, ?_, ?_, hndw⟩
+      · simp [expandArg, treeFs, Glob.isDir, hs]
+      · intro rel leaf hb
+        have hm : intercalateSlash (ds ++ rel) ∈ Glob.walk root (walkRoot (intercalateSlash ds)) := by
+          rw [hwalk]
+          exact List.mem_map.2 ⟨rel, (hiff rel).2 ⟨leaf, hb⟩, rfl⟩
+        rw [hndw.count]; simp [hm]
+      · intro q hq
+        rw [hwalk] at hq
+        obtain ⟨rel, hrel, rfl⟩ := List.mem_map.1 hq
+        obtain ⟨leaf, hb⟩ := (hiff rel).1 hrel
+        exact ⟨rel, leaf, hb, rfl⟩
+
+/-! ## The plan -/
+
+/-- **The final plan is the concatenation over the arguments, in order**: each argument is expanded on its
+    own against the tree, a path is opened as many times as the expansions of the arguments contain it (a file
+    mentioned twice – literally, or by two patterns – is read twice), and appending arguments appends their inputs. -/
+theorem plan_mentions (root : Node) (recursive : Bool) (args args2 : List Path) (x : Path) :
+    planFiles (treeFs root) recursive args = (args.map (expandArg (treeFs root) recursive)).flatten ∧
+    (planFiles (treeFs root) recursive args).count x
+      = ((args.map (expandArg (treeFs root) recursive)).map (List.count x)).sum ∧
+    planFiles (treeFs root) recursive (args ++ args2)
+      = planFiles (treeFs root) recursive args ++ planFiles (treeFs root) recursive args2 ∧
+    (args ≠ [] → args.head? ≠ some dash →
+      plan recursive args (treeFs root) = (planFiles (treeFs root) recursive args).map .file) := by
+  refine ⟨by simp [planFiles, List.flatMap_def], ?_, by simp [planFiles], (plan_stdin recursive args _).2.1⟩
+  unfold planFiles
+  rw [List.count_flatMap, List.map_map]
+
+/-! ## Non-vacuity of the glob / walk theorems -/
+
+/-- `rare -R logs 'logs/*.log' '*/*.log' 'logs/a.log' 'x*'` over the tree
+    `logs/{a.log, b.log, sub/{c.log, ln -> ../a.log}, é😀.log}`, `ld -> logs`, `x[1]` -/
+def exTree : Node :=
+  .dir (.cons [108, 111, 103, 115] (.dir
+      (.cons [98, 46, 108, 111, 103] .file
+      (.cons [97, 46, 108, 111, 103] .file
+      (.cons [115, 117, 98] (.dir
+          (.cons [99, 46, 108, 111, 103] .file
+          (.cons [108, 110] (.link [46, 46, 47, 97, 46, 108, 111, 103]) .nil)))
+      (.cons [195, 169, 240, 159, 152, 128, 46, 108, 111, 103] .file .nil)))))
+    (.cons [108, 100] (.link [108, 111, 103, 115])
+    (.cons [120, 91, 49, 93] .file .nil)))
+
+def nLogs : Name := [108, 111, 103, 115]          -- "logs"
+def nLd : Name := [108, 100]                      -- "ld"
+def pStarLog : Bytes := [42, 46, 108, 111, 103]   -- "*.log"
+
+theorem exTree_wf : exTree.WF := by
+  simp [exTree, Node.WF, Ents.WF, Ents.names, NormalName, dot, dotdot]
+
+theorem pStarLog_parses : Parses pStarLog [.star, .lit 46, .lit 108, .lit 111, .lit 103] :=
+  Parses.star (Parses.lit 46 (by decide) (by decide) (by decide) (by decide)
+    (Parses.lit 108 (by decide) (by decide) (by decide) (by decide)
+    (Parses.lit 111 (by decide) (by decide) (by decide) (by decide)
+    (Parses.lit 103 (by decide) (by decide) (by decide) (by decide) Parses.nil))))
+
+/-- `match_eq_spec` applies to `*.log` and the name `é😀.log` (which has a four-byte character) … -/
+example : slash ∉ ([195, 169, 240, 159, 152, 128, 46, 108, 111, 103] : Bytes) ∧
+    FixedWidth [.star, .lit 46, .lit 108, .lit 111, .lit 103] ∧
+    goMatch pStarLog [195, 169, 240, 159, 152, 128, 46, 108, 111, 103] = .matched true := by
+  refine ⟨by decide, ?_, by decide⟩
+  intro it hit
+  simp only [List.mem_cons, List.mem_nil_iff, or_false] at hit
+  rcases hit with rfl | rfl | rfl | rfl | rfl <;> simp
+/-- … and, with a class, to names of two-byte characters -/
+example : NoWide [195, 169, 97] ∧ goMatch [91, 94, 97, 93, 42] [195, 169, 97] = .matched true := by
+  refine ⟨?_, by decide⟩
+  intro k
+  match k with
+  | 0 => decide
+  | 1 => decide
+  | 2 => decide
+  | k + 3 => simp [Rare.C20.decode1]
+
+/-- the hypotheses of `glob_sound_complete` hold for `logs/*.log` over `exTree`, and so do its conclusions -/
+example : (∀ x ∈ [nLogs], NormalName x ∧ hasMeta x = false) ∧ hasMeta pStarLog = true ∧
+    (∀ c ∈ [pStarLog], c ≠ [] ∧ slash ∉ c ∧ WellFormed c) ∧
+    (∀ c ∈ [pStarLog], ∀ ast, Parses c ast → FixedWidth ast) ∧
+    glob exTree (intercalateSlash ([nLogs] ++ [pStarLog])) = .ok
+      [[108, 111, 103, 115, 47, 97, 46, 108, 111, 103], [108, 111, 103, 115, 47, 98, 46, 108, 111, 103],
+       [108, 111, 103, 115, 47, 195, 169, 240, 159, 152, 128, 46, 108, 111, 103]] := by
+  refine ⟨?_, by decide, ?_, ?_, by decide +kernel⟩
+  · intro x hx
+    simp only [List.mem_singleton] at hx; subst hx
+    exact ⟨by simp [NormalName, nLogs, dot, dotdot], by decide⟩
+  · intro c hc
+    simp only [List.mem_singleton] at hc; subst hc
+    exact ⟨by decide, by decide, ⟨_, pStarLog_parses⟩⟩
+  · intro c hc ast hp
+    simp only [List.mem_singleton] at hc; subst hc
+    rw [parses_unique hp pStarLog_parses]
+    intro it hit
+    simp only [List.mem_cons, List.mem_nil_iff, or_false] at hit
+    rcases hit with rfl | rfl | rfl | rfl | rfl <;> simp
+
+/-- two levels, through the symbolic link `ld -> logs` as well: `*/*.log` -/
+example : glob exTree [42, 47, 42, 46, 108, 111, 103] = .ok
+    [[108, 100, 47, 97, 46, 108, 111, 103], [108, 100, 47, 98, 46, 108, 111, 103],
+     [108, 100, 47, 195, 169, 240, 159, 152, 128, 46, 108, 111, 103],
+     [108, 111, 103, 115, 47, 97, 46, 108, 111, 103], [108, 111, 103, 115, 47, 98, 46, 108, 111, 103],
+     [108, 111, 103, 115, 47, 195, 169, 240, 159, 152, 128, 46, 108, 111, 103]] := by decide +kernel
+
+/-- `walk_each_regular_file_once`: `-R ld` (a link to the directory) lists the four non-directories below `logs`
+    under the name the user gave; the link `sub/ln` is listed as a file, not followed -/
+example : Glob.isDir exTree (intercalateSlash [nLd]) = true ∧
+    Glob.walk exTree (walkRoot (intercalateSlash [nLd])) =
+      [[108, 100, 47, 97, 46, 108, 111, 103], [108, 100, 47, 98, 46, 108, 111, 103],
+       [108, 100, 47, 115, 117, 98, 47, 99, 46, 108, 111, 103], [108, 100, 47, 115, 117, 98, 47, 108, 110],
+       [108, 100, 47, 195, 169, 240, 159, 152, 128, 46, 108, 111, 103]] := by
+  constructor <;> decide +kernel
+
+example : Below exTree [nLogs, [115, 117, 98], [108, 110]] (.link [46, 46, 47, 97, 46, 108, 111, 103]) :=
+  Below.step (e := _) rfl (Below.step rfl (Below.step rfl (Below.here _ rfl)))
+
+/-- the whole plan of `rare -R logs 'x[1]' 'x[1]' 'a['`: the directory walked, the literal fallback of a pattern without
+    match twice (two mentions), the bad pattern as a literal path -/
+example : planFiles (treeFs exTree) true [nLogs, [120, 91, 49, 93], [120, 91, 49, 93], [97, 91]] =
+    [[108, 111, 103, 115, 47, 97, 46, 108, 111, 103], [108, 111, 103, 115, 47, 98, 46, 108, 111, 103],
+     [108, 111, 103, 115, 47, 115, 117, 98, 47, 99, 46, 108, 111, 103], [108, 111, 103, 115, 47, 115, 117, 98, 47, 108, 110],
+     [108, 111, 103, 115, 47, 195, 169, 240, 159, 152, 128, 46, 108, 111, 103],
+     [120, 91, 49, 93], [120, 91, 49, 93], [97, 91]] := by decide +kernel
 
 end Rare.C06
